@@ -45,6 +45,13 @@ class Obj:
         return f"<{self.name}>"
 
 
+class FalsyObj(Obj):
+    """A real object that is falsy (an empty collection-like awaitable, 0, ...): still a leaf."""
+
+    def __len__(self) -> int:
+        return 0
+
+
 class Flags:
     """Supplies symbolic booleans / small choices in a fixed order (one engine variable each).
     rich=False (quick tier): per flagged context only hide / is_exiting / start_line presence are
@@ -155,10 +162,10 @@ def shapes() -> List[Callable[[Flags], Stack]]:
 
     def s5(F: Flags) -> Stack:
         return Stack(root=Obj("root"), frames=[mk_frame(F, 0, [mk_ctx(F), mk_ctx(F)]), mk_frame(F, 2, [mk_ctx(F, texts=True)])],
-                     leaf=Obj("leaf") if bool(F.b("leaf")) else None, error=ValueError("e") if bool(F.b("error")) else None)
+                     leaf=FalsyObj("leaf") if bool(F.b("leaf")) else None, error=ValueError("e") if bool(F.b("error")) else None)
 
     def s6(F: Flags) -> Stack:
-        return Stack(root=None if bool(F.b("no_root")) else Obj("r"), frames=[], leaf=Obj("only leaf") if bool(F.b("leaf")) else None,
+        return Stack(root=None if bool(F.b("no_root")) else Obj("r"), frames=[], leaf=FalsyObj("only leaf") if bool(F.b("leaf")) else None,
                      error=ValueError("e") if bool(F.b("error")) else None)
 
     S.extend([s0, s1, s2, s3, s4, s5, s6])
@@ -264,6 +271,9 @@ def read_frame(lines: List[str]) -> Dict[str, Any]:
         if ln.startswith("├─"):
             if not ctxs:
                 raise ParseError("child context without a context")
+            if not ln[2:].startswith("─ "):
+                # the branch marker announces a DIRECT child of the frame-level context; deeper levels continue with │
+                raise ParseError(f"branch marker not followed by the child marker: {ln!r}")
             ctxs[-1].append(ln[2:])
         elif ln.startswith("├ "):
             ctxs.append([ln[2:]])
